@@ -16,6 +16,7 @@ open Nanite.C07
 #print axioms c07_slope_baseline_region
 #print axioms c07_slope_approach_region
 #print axioms c07_ols_removes_trend
+#print axioms c07_slope_removes_trend
 #print axioms c07_segment_length
 #print axioms c07_segment_single_switch
 #print axioms c07_argmax_is_first_maximum
